@@ -58,6 +58,8 @@ CHECKS = {
         "engines": [
             eng("native-release", "chk-codec", NATIVE_REL, params={"all": {"scale": 8}}),
             eng("native-debugassert", "chk-codec", NATIVE_CHK, params={"all": {"scale": 4}}),
+            eng("txt-native-release", "chk-stack", NATIVE_REL, params={"all": {"scale": 2}}, floor_scale=0.0),
+            eng("txt-native-debugassert", "chk-stack", NATIVE_CHK, params={"all": {"scale": 1}}, floor_scale=0.0),
         ],
         "exhaustive": {"quick": False, "thorough": False},
         "trusted_base": ["reference text grammars in harness/chk-codec/src/c15.rs", "std IP/integer parsers"],
